@@ -83,12 +83,76 @@ def Frozen (s : St) (cold : Bool) (ov : Nat) (S : List Obs) : Prop :=
 def SpinInv (s : St) (cold : Bool) (ov : Nat) (S : List Obs) : Prop :=
   Frozen s cold ov S ∧ EqN s cold ∧ EqN s (!cold)
 
-def TodoWf : List CStep → Prop
-  | [] => True
-  | CStep.swap c :: rest => CStep.addHot c ∈ rest ∧ CStep.swap c ∉ rest ∧ TodoWf rest
-  | CStep.addHot c :: rest => CStep.swap c ∉ rest ∧ CStep.addHot c ∉ rest ∧ TodoWf rest
-  | CStep.addCount :: rest => CStep.addCount ∉ rest ∧ TodoWf rest
-  | CStep.unlock :: rest => rest = []
+/-- well-formedness of what a collector still has to do, independent of the ORDER of the list: no step
+    occurs twice, and a cell that still has to be swapped out still has to be added back -/
+def TodoWf (todo : List CStep) : Prop :=
+  todo.Nodup ∧ ∀ c, CStep.swap c ∈ todo → CStep.addHot c ∈ todo
+
+/-- membership in a list from which one element was taken out -/
+theorem mem_remove_of_ne {α} {l1 l2 : List α} {x y : α} (h : y ≠ x) :
+    y ∈ l1 ++ x :: l2 ↔ y ∈ l1 ++ l2 := by
+  simp only [List.mem_append, List.mem_cons]
+  constructor
+  · rintro (h1 | h1 | h1)
+    · exact .inl h1
+    · exact absurd h1 h
+    · exact .inr h1
+  · rintro (h1 | h1)
+    · exact .inl h1
+    · exact .inr (.inr h1)
+
+/-- an element taken out of a duplicate-free list is not in what remains -/
+theorem nodup_remove {α} {l1 l2 : List α} {x : α} (h : (l1 ++ x :: l2).Nodup) :
+    (l1 ++ l2).Nodup ∧ x ∉ l1 ++ l2 := by
+  have hp : (l1 ++ x :: l2).Perm (x :: (l1 ++ l2)) := List.perm_middle
+  have h' := hp.nodup_iff.mp h
+  rw [List.nodup_cons] at h'
+  exact ⟨h'.2, h'.1⟩
+
+/-- `TodoWf` does not depend on the order: it is kept when the list is replaced by one with the same
+    elements that is duplicate-free -/
+theorem TodoWf.of_mem_iff {l l' : List CStep} (h : TodoWf l) (hn : l'.Nodup) (hm : ∀ x, x ∈ l' ↔ x ∈ l) :
+    TodoWf l' :=
+  ⟨hn, fun c hc => (hm _).2 (h.2 c ((hm _).1 hc))⟩
+
+/-- taking a `swap` out of a well-formed list -/
+theorem TodoWf.remove_swap {l1 l2 : List CStep} {c : Nat} (h : TodoWf (l1 ++ CStep.swap c :: l2)) :
+    CStep.addHot c ∈ l1 ++ l2 ∧ CStep.swap c ∉ l1 ++ l2 ∧ TodoWf (l1 ++ l2) := by
+  obtain ⟨hn, hnot⟩ := nodup_remove h.1
+  have ha := h.2 c (by simp)
+  refine ⟨(mem_remove_of_ne (by simp)).1 ha, hnot, hn, fun c' hc' => ?_⟩
+  have := h.2 c' (by
+    simp only [List.mem_append, List.mem_cons] at hc' ⊢
+    rcases hc' with h1 | h1
+    · exact .inl h1
+    · exact .inr (.inr h1))
+  exact (mem_remove_of_ne (by simp)).1 this
+
+/-- taking an `addHot` whose `swap` has been done out of a well-formed list -/
+theorem TodoWf.remove_addHot {l1 l2 : List CStep} {c : Nat} (h : TodoWf (l1 ++ CStep.addHot c :: l2))
+    (hs : CStep.swap c ∉ l1 ++ l2) :
+    CStep.addHot c ∉ l1 ++ l2 ∧ TodoWf (l1 ++ l2) := by
+  obtain ⟨hn, hnot⟩ := nodup_remove h.1
+  refine ⟨hnot, hn, fun c' hc' => ?_⟩
+  have hne : c' ≠ c := by rintro rfl; exact hs hc'
+  have := h.2 c' (by
+    simp only [List.mem_append, List.mem_cons] at hc' ⊢
+    rcases hc' with h1 | h1
+    · exact .inl h1
+    · exact .inr (.inr h1))
+  exact (mem_remove_of_ne (by simp [hne])).1 this
+
+/-- taking the `addCount` out of a well-formed list -/
+theorem TodoWf.remove_addCount {l1 l2 : List CStep} (h : TodoWf (l1 ++ CStep.addCount :: l2)) :
+    CStep.addCount ∉ l1 ++ l2 ∧ TodoWf (l1 ++ l2) := by
+  obtain ⟨hn, hnot⟩ := nodup_remove h.1
+  refine ⟨hnot, hn, fun c' hc' => ?_⟩
+  have := h.2 c' (by
+    simp only [List.mem_append, List.mem_cons] at hc' ⊢
+    rcases hc' with h1 | h1
+    · exact .inl h1
+    · exact .inr (.inr h1))
+  exact (mem_remove_of_ne (by simp)).1 this
 
 def MoveInv (k : Nat) (s : St) (cold : Bool) (ov : Nat) (todo : List CStep) (taken : Cells)
     (S : List Obs) : Prop :=
